@@ -32,6 +32,10 @@ func buildUniverse() []Obj {
 	add(num("double", "1.5"), num("single", "1.5"), num("ratio", "3/2"), num("long", "1.5"), num("long", "1.5"))
 	add(num("single", "0.1"), num("double", "0.1"), num("double", "0.1"), num("ratio", "1/8"), num("double", "0.125"))
 	add(num("big", p64), num("double", p64+".0"), fix(100), num("single", "100.0"))
+	// a single-float that is no dyadic fraction of few bits and the double-float of exactly its
+	// value (what coerce gives): equal under every predicate that compares numbers by value
+	add(num("double", "0.100000001490116119384765625"), num("single", "2.7"), num("double", "2.7000000476837158203125"), num("double", "2.7"),
+		list(num("single", "0.1"), fix(1)), list(num("double", "0.100000001490116119384765625"), fix(1)))
 	// characters and strings differing in case; characters vs one-char strings
 	add(chr("a"), chr("A"), chr("a"), chr("b"), chr("1"), chr("é"), chr("É"))
 	add(str("a"), str("A"), str("a"), str("b"), str(""), str(""), str("abc"), str("ABC"), str("aBc"), str("abc"),
